@@ -89,32 +89,49 @@ def overAt : Option Nat → List (SName × Stage) → List (SName × Nat × Nat)
   | e, _ :: _, [] => e
   | _, (_, st) :: path, (_, t, _) :: log => overAt ((delayOf st.beh).map (t + ·)) path log
 
-/-- the last Deferred fired strictly before the timeout and not after a stop request — or no stage returned a
-Deferred at all (then the chain is over before the reactor starts) -/
-def lastInTime (p : Prog) (t : Trace) : Bool :=
+/-- every stage was started by the running reactor (not by the shake-out iterations of `Spinner._clean`, which run
+after the result of the spin has been determined) -/
+def allLive (t : Trace) : Bool := t.live.length == t.stages.length && t.live.all id
+
+/-- the last Deferred fired strictly before the timeout — or no stage returned a Deferred at all (then the chain
+is over before the reactor starts) -/
+def lastBeforeTimeout (p : Prog) (t : Trace) : Bool :=
   (ranStages p t).all (fun st => isSync st.beh) ||
   match overAt (some 0) (path p) t.stages with
-  | some over => decide (over < p.timeout) && p.stops.all (fun s => decide (over ≤ s))
+  | some over => decide (over < p.timeout)
   | none => false
 
-def inTime (p : Prog) (t : Trace) : Bool := complete p t && lastInTime p t
+/-- every stage of the path ran, under the running reactor, the last one was over before the timeout, and the
+run was not interrupted -/
+def inTime (p : Prog) (t : Trace) : Bool :=
+  complete p t && allLive t && lastBeforeTimeout p t && !t.stopRequested
 
 def sidesRan (p : Prog) (t : Trace) : List Side := ((ranStages p t).map (·.sides)).flatten
 
 def loggedLeft (sides : List Side) : Nat :=
   sides.foldl (fun n s => match s with | .logerr => n + 1 | .flush => 0 | _ => n) 0
 
-/-- success ⇔ every stage completed cleanly within the timeout ∧ no logged error left unflushed ∧ no failed
-Deferred dropped ∧ nothing left scheduled (∧ no failed expectation) -/
+/-- success ⇔ every stage completed cleanly within the timeout, uninterrupted ∧ no logged error left unflushed ∧
+no failed Deferred dropped ∧ nothing left scheduled (∧ no failed expectation) -/
 def cSuccessIff (p : Prog) (t : Trace) : Bool :=
   (outcome t == some .success) ==
     (inTime p t && (ranStages p t).all (fun st => behOk st.beh) && !(sidesRan p t).contains .expect
       && loggedLeft (sidesRan p t) == 0 && !(sidesRan p t).contains .dropfailed && t.leftover == 0)
 
-/-- not in time ⇒ error; the result is asked to stop exactly when the run was ended by an interrupt -/
+/-- the chain was not over when a stop request came, before the timeout: the log is incomplete, or its last
+stage was over only later -/
+def interruptedFor (p : Prog) (t : Trace) (s : Nat) : Bool :=
+  decide (s < p.timeout) &&
+  (!complete p t || match overAt (some 0) (path p) t.stages with
+    | some over => decide (s < over)
+    | none => true)
+
+/-- not in time ⇒ error; an interrupt asks the result to stop, and nothing else does (at the very instant at
+which the chain is over the reactor's call order decides - left to the correspondence) -/
 def cTimeoutInterrupt (p : Prog) (t : Trace) : Bool :=
   (inTime p t || outcome t == some .error) &&
-  (t.stopRequested == (!inTime p t && p.stops.any (fun s => decide (s < p.timeout))))
+  (!t.stopRequested || p.stops.any (fun s => decide (s < p.timeout))) &&
+  (!p.stops.any (interruptedFor p t) || t.stopRequested)
 
 def duringCount (p : Prog) : Nat := (if p.suppress then 0 else p.nObs) + (if p.store then 1 else 0) + 1
 
